@@ -147,7 +147,7 @@ static void hist_begin(void)
     if (FROMFD) { int fd = socket(native_family(), DGRAM ? SOCK_DGRAM : SOCK_STREAM, 0); if (fd < 0) { perror("socket"); exit(2); } sut = p_socket_new_from_fd(fd, NULL); }
     else sut = p_socket_new(FAM == 6 ? P_SOCKET_FAMILY_INET6 : P_SOCKET_FAMILY_INET, DGRAM ? P_SOCKET_TYPE_DATAGRAM : P_SOCKET_TYPE_STREAM, DGRAM ? P_SOCKET_PROTOCOL_UDP : P_SOCKET_PROTOCOL_TCP, NULL);
     acc = NULL; peer_listen = peer_conn = peer_dg = peer_fill = -1;
-    if (!sut) { fprintf(stderr, "p_socket_new failed\n"); exit(2); }
+    if (!sut) { viol("new-failed", "the socket constructor returned NULL for a supported family / type / protocol"); exit(1); }
     if (!FROMFD && env_cloexec(p_socket_get_fd(sut)) != 1) viol("fd-flags/new-not-cloexec", "descriptor of a new socket does not carry close-on-exec");
 }
 static void hist_end(void)
